@@ -13,6 +13,8 @@ import (
 	"strings"
 
 	"pgregory.net/rapid"
+
+	"nriverif/ev"
 )
 
 // behaviours of a launched executable (see cmd/probeplugin)
@@ -22,6 +24,7 @@ const (
 	bSleep    = "sleep"       // never registers, lingers
 	bCloseFD  = "closefd"     // closes the socket without registering, lingers
 	bCfgFail  = "cfgfail"     // fails Configure
+	bCfgHang  = "cfghang"     // never answers Configure (nri's request timeout), lingers until killed
 	bSyncFail = "syncfail"    // fails Synchronize
 	bDie      = "die"         // exits inside the handler of its K-th lifecycle event
 	bDieAfter = "dieafter"    // exits right after answering its K-th lifecycle event
@@ -94,7 +97,7 @@ func (p Plugin) File() string { return p.Idx + "-" + p.Base() }
 // reachesConfigure: the process registers and is sent Configure.
 func (p Plugin) reachesConfigure() bool {
 	switch p.Behav {
-	case bOK, bCfgFail, bSyncFail, bDie, bDieAfter, bLinger, bHang:
+	case bOK, bCfgFail, bCfgHang, bSyncFail, bDie, bDieAfter, bLinger, bHang:
 		return true
 	}
 	return false
@@ -147,8 +150,13 @@ type C18Case struct {
 	Held        []string `json:"held,omitempty"`          // descriptors the runtime holds: file dir unix tcp pipe
 	Listen      bool     `json:"listen,omitempty"`        // external plugin socket enabled (always with Exts)
 	Exts        []Ext    `json:"exts,omitempty"`
-	SyncPods    int      `json:"sync_pods,omitempty"`
-	SyncCtrs    int      `json:"sync_ctrs,omitempty"`
+	// RegTimeoutMs overrides nri's registration timeout for this case (0: the tier's default).
+	// Used by the "stacked waits" shape: several plugins that never register (or never
+	// answer Configure) ahead of a healthy one, whose runtime-side waits add up to more than
+	// the 5 s a stub-based plugin itself allows for its registration.
+	RegTimeoutMs int `json:"reg_timeout_ms,omitempty"`
+	SyncPods     int `json:"sync_pods,omitempty"`
+	SyncCtrs     int `json:"sync_ctrs,omitempty"`
 }
 
 var opKinds = []string{
@@ -199,9 +207,42 @@ func genC18(t *rapid.T) C18Case {
 	used := map[string]bool{}
 	nPlug := rapid.SampledFrom([]int{0, 1, 2, 2, 3, 3, 3, 4, 4, 5}).Draw(t, "nplugins")
 	sleepers, hangers := 0, 0
-	for i := 0; i < nPlug; i++ {
+	cfgHangers := 0
+	// stacked waits (≈ 6 s per case, hence rare): three or four plugins that never register /
+	// never answer Configure with the lowest indices, healthy ones behind them
+	// Only in the thorough tier (the quick tier's sweep has one such case): probability 2^-5
+	// per case, drawn with fair coins (rapid's integer generators favour small values and
+	// boundaries).
+	stack := ev.Thorough()
+	for j := 0; stack && j < 5; j++ {
+		stack = rapid.Bool().Draw(t, "stack_coin")
+	}
+	if stack {
+		c.RegTimeoutMs = 2000
+		shape := rapid.SampledFrom([][]string{
+			{bSleep, bSleep, bSleep},
+			{bSleep, bSleep, bCfgHang, bCfgHang},
+			{bSleep, bCfgHang, bSleep, bCfgHang},
+		}).Draw(t, "stack_shape")
+		for j, b := range shape {
+			p := Plugin{Idx: fmt.Sprintf("0%d", j), Stem: rapid.SampledFrom(stemPool).Draw(t, "sstem"), Behav: b, Mode: 0o755}
+			for used[p.File()] {
+				p.Stem += "x"
+			}
+			used[p.File()] = true
+			c.Plugins = append(c.Plugins, p)
+		}
+		sleepers, cfgHangers = 1, 1 // no further slow plugins
+		hangers = 1
+		nPlug = rapid.IntRange(1, 5-len(shape)).Draw(t, "stack_healthy")
+	}
+	stackBase := len(c.Plugins)
+	for i := stackBase; i < stackBase+nPlug; i++ {
 		var p Plugin
 		p.Idx = rapid.SampledFrom(idxPool).Draw(t, "idx")
+		if stackBase > 0 {
+			p.Idx = rapid.SampledFrom([]string{"10", "10", "20", "50", "99"}).Draw(t, "idx_behind")
+		}
 		p.Mode = rapid.SampledFrom(execModes).Draw(t, "mode")
 		nest := i > 0 && rapid.IntRange(0, 4).Draw(t, "nest") == 0
 		var src *Plugin
@@ -209,7 +250,7 @@ func genC18(t *rapid.T) C18Case {
 			// the base name of this plugin is the whole file name of an earlier one:
 			// its name.conf is the other's NN-name.conf
 			j := rapid.IntRange(0, i-1).Draw(t, "nest_of")
-			if q := c.Plugins[j]; q.Behav != bSleep && q.Behav != bHang {
+			if q := c.Plugins[j]; q.Behav != bSleep && q.Behav != bHang && q.Behav != bCfgHang {
 				src = &q
 			}
 		}
@@ -224,11 +265,20 @@ func genC18(t *rapid.T) C18Case {
 			if hangers == 0 {
 				pool = append(pool, bHang)
 			}
+			if cfgHangers == 0 && hangers == 0 {
+				pool = append(pool, bCfgHang) // at most one request-timeout plugin per ordinary case
+			}
+			if stackBase > 0 && i == stackBase {
+				pool = []string{bOK} // at least one healthy plugin behind the stack
+			}
 			p.Behav = rapid.SampledFrom(pool).Draw(t, "behav")
 			switch p.Behav {
 			case bSleep:
 				sleepers++
 			case bHang:
+				hangers++
+			case bCfgHang:
+				cfgHangers++
 				hangers++
 			case bExit:
 				p.K = rapid.SampledFrom([]int{0, 0, 1, 7}).Draw(t, "status")
@@ -371,7 +421,7 @@ func genC18(t *rapid.T) C18Case {
 // (a generated case always satisfies them; a hand-written replay file might not).
 func validate(c C18Case) error {
 	names := map[string]bool{}
-	sleepers, hangers := 0, 0
+	sleepers, hangers, cfgHangers := 0, 0, 0
 	for _, p := range c.Plugins {
 		if len(p.Idx) != 2 || p.Idx[0] < '0' || p.Idx[0] > '9' || p.Idx[1] < '0' || p.Idx[1] > '9' {
 			return fmt.Errorf("plugin index %q is not two digits", p.Idx)
@@ -381,6 +431,8 @@ func validate(c C18Case) error {
 		}
 		switch p.Behav {
 		case bOK, bExit, bCloseFD, bCfgFail, bSyncFail, bDie, bDieAfter, bLinger, bGarbage:
+		case bCfgHang:
+			cfgHangers++
 		case bSleep:
 			sleepers++
 		case bHang:
@@ -399,7 +451,10 @@ func validate(c C18Case) error {
 		}
 		names[p.File()] = true
 	}
-	if sleepers > 2 || hangers > 2 {
+	if c.RegTimeoutMs != 0 && (c.RegTimeoutMs < 500 || c.RegTimeoutMs > 4000) {
+		return fmt.Errorf("registration timeout %d ms out of range", c.RegTimeoutMs)
+	}
+	if sleepers > 6 || hangers > 2 || cfgHangers > 4 || len(c.Plugins) > 8 {
 		return fmt.Errorf("too many slow plugins")
 	}
 	for _, e := range c.Others {
